@@ -18,10 +18,10 @@ C = {
  'C06': ('exploration', VAL + ' euler_chem_1d with named callbacks.', 'TLA+ trace validation with a numeric oracle (jets + two-species reacting Euler operator)', '6 C06'),
  'C07': ('exploration', VAL + ' every grad_* evaluator, direction indices around the valid range.', 'TLA+ trace validation with a numeric oracle (jet gradients of the documented fields)', '6 C07'),
  'C08': ('exploration', 'sod_1d is judged against the exact Riemann solution and cp_normal against the conjugate-normal formulas, both written in MasaClosed.tla and evaluated at 45 digits during trace validation; sampled inputs.', 'TLA+ trace validation with closed-form oracles (exact Riemann solver, conjugate normal model)', '6 C08'),
- 'C09': ('exploration', 'All C01-C08 evaluations in both precisions with identical exactly representable inputs, rescaled transport coefficients and amplitudes; each result within 2^5 u_p mag of the 45-digit oracle, and the history variable acc of MasaTrace demands that the long double error distribution (in long double roundoffs) is not shifted above the double one (in double roundoffs).', 'TLA+ trace validation: 45-digit oracle + accuracy statistics history variable', '6 C09'),
- 'C10': ('exploration', 'Trace validation with the history variable memo of Masa.tla: identical (precision, solution, parameters, overload, arguments) must give bit-identical results across arbitrary interleaved calls and across two processes running the phases in opposite order, and sweeps must read back unchanged parameters; seeded random histories on every non-fixture solution.', 'TLA+ trace validation (memo history variable) of randomized purity histories', '6 C10'),
- 'C11': ('model_checking', 'The parameter store is the par/vec maps of Masa.tla. TLC enumerates the 1-handle bounded model exhaustively; every transition is replayed on the real library and random store histories run on every catalogue entry; TLC validates every read-back against the specification map; evaluators-use-last-set-values is judged by the numeric oracle.', 'TLC bounded model + replay of every transition + trace validation', '6 C11'),
- 'C12': ('model_checking', 'TLC explores all interleavings of every API action over 2 handles (3 thorough) and over both precisions; Isolation, PrecIndependent, ReinitFresh, SelValid etc. are checked on the model, every transition is replayed on the real library and validated against the specification, plus long random multi-handle histories.', 'TLC bounded model + replay of every transition + trace validation', '6 C12'),
+ 'C09': ('exploration', 'All C01-C08 evaluations in both precisions with identical exactly representable inputs, rescaled transport coefficients and amplitudes; each result within 2^6 u_p mag (first-order running error scale) of the 45-digit oracle, and the history variable acc of MasaTrace demands that the long double error distribution (in long double roundoffs) is not shifted above the double one (in double roundoffs).', 'TLA+ trace validation: 45-digit oracle + accuracy statistics history variable', '6 C09'),
+ 'C10': ('exploration', 'Trace validation with the history variable memo of Masa.tla: identical (precision, solution, parameters, overload, arguments) must give bit-identical results across arbitrary interleaved calls and across two processes running the phases in opposite order, and sweeps must read back unchanged parameters; seeded random histories on every non-fixture solution; thorough: plus the repository\'s own programs traced through the ld --wrap shim.', 'TLA+ trace validation (memo history variable) of randomized purity histories', '6 C10'),
+ 'C11': ('model_checking', 'The parameter store is the par/vec maps of Masa.tla. TLC enumerates the 1-handle bounded model (full alphabet, both self-test fixtures with their failing init_var) exhaustively; every transition is replayed on the real library and random store histories run on every catalogue entry; TLC validates every read-back against the specification map; evaluators-use-last-set-values is judged by the numeric oracle.', 'TLC bounded model + replay of every transition + trace validation', '6 C11'),
+ 'C12': ('model_checking', 'TLC explores all interleavings of every API action over 2 handles (3 thorough) and over both precisions (quick: reduced alphabet Lite; thorough: full); Isolation, PrecIndependent, ReinitFresh, SelValid etc. are checked on the model, every transition is replayed on the real library and validated against the specification, plus long random multi-handle histories.', 'TLC bounded model + replay of every transition + trace validation', '6 C12'),
  'C13': ('model_checking', 'MC_Names.tla enumerates every decoration (separator runs in up to two gaps x case masks) and every single-character negative of sampled base names and checks the normalisation against itself; every string is passed to masa_init and the outcome validated by Masa!Init/Resolve; random decorations and negatives of all 37 names.', 'TLC enumeration of name decorations + replay + trace validation', '6 C13'),
  'C14': ('model_checking', 'Finite domain enumerated completely: every printed name and every frozen catalogue entry, both precisions, every evaluator of the capability set; each call validated by Masa.tla actions (PrintId, Init, GetName, GetDim, Sanity, InitParam, Eval).', 'exhaustive enumeration of the catalogue, TLA+ trace validation', '6 C14'),
  'C15': ('exploration', 'All (solution, overload) pairs outside the capability set are enumerated (complete over pairs), arguments sampled, with a provider of the overload selected in the other precision; Masa!Eval demands -1.33, an ERROR tag, normal return, unchanged state.', 'enumeration of all unprovided overloads + TLA+ trace validation', '6 C15'),
@@ -54,6 +54,6 @@ M = dict(version=1,
                        kind_free_text='explicit TLA+ specification (Masa.tla) checked by TLC on bounded instances; bound to the code by replaying every model transition on the real library and validating every recorded call against the trace specification MasaTrace.tla')],
          checks=checks,
          not_applicable=[dict(property_id=p['id'], reason=NA_REASON) for p in props if p['id'] not in C],
-         notes='see DESIGN.md; known_findings.json lists fixed and known findings')
+         notes='see DESIGN.md; known_findings.json lists fixed and known findings; thorough tiers additionally validate the traces of the repository\'s own 66 test/example programs (unmodified, ld --wrap shim) against the same specification')
 json.dump(M, open(os.path.join(V, 'MANIFEST.json'), 'w'), indent=1)
 print('checks:', [c['property_id'] for c in checks])
